@@ -18,6 +18,11 @@
                   A pending, later SO_ERROR ECONNREFUSED   B pending (EINTR), later ETIMEDOUT
                   T pending, never answers   K pending ok   I connect returned 0, ok   J EINTR, ok
         ops: s deliver the natural event   r the same with the timer expired too   x cancel
+     scx <op> ...            the same scenario with the netbuf reader / writer of the C side attached
+                             to the context transport (netbuf_read_init2(-1, ctx): the branch used for
+                             TLS) instead of a descriptor.  The model is transport-agnostic at this
+                             level (the transport contract is C06's): scx is read as sc, and
+                             areas/net.py compares the C logs of BOTH modes with this one log.
    One result line per case: the log of observations, tokens separated by blanks. *)
 
 let errno_names = [| "EAGAIN"; "EWOULDBLOCK"; "EINTR"; "ECONNABORTED"; "ECONNRESET"; "EPIPE";
@@ -183,7 +188,7 @@ let () = iter_lines (fun line ->
   let out =
     try
       match split_ws line with
-      | "sc" :: toks -> run_sc toks
+      | "sc" :: toks | "scx" :: toks -> run_sc toks
       | ["conn"; timeo; outs; ops] when timeo = "0" || timeo = "1" -> run_conn timeo outs ops
       | _ -> "bad-case"
     with Bad | Failure _ | Invalid_argument _ -> "bad-case" in
